@@ -78,7 +78,8 @@ func (c *concurrentStreamMapperProvider[SRC, TGT]) Open(ctx context.Context, src
 						tgt, err := c.mapper(ctx, entry.Value)
 						if err != nil {
 							select {
-							case c.tgtChan <- shpanstream.Result[TGT]{Err: err}:
+							// Wrapping errors, e.g. we don't want EOF accidentally returned from here
+							case c.tgtChan <- shpanstream.Result[TGT]{Err: fmt.Errorf("map failed for Stream: %w", err)}:
 							case <-ctx.Done():
 								return
 							}
